@@ -46,6 +46,10 @@ func genFaultScn(rng *rand.Rand, maxN int, phase time.Duration) faultScn {
 			}
 			sc.Actions = append(sc.Actions, faultAction{At: t, Kind: "dup", P: 0.3}, faultAction{At: t + 20*time.Second, Kind: "dup", P: 0})
 		case 3:
+			if rng.Intn(2) == 0 {
+				sc.Actions = append(sc.Actions, faultAction{At: t, Kind: "streamcut", P: 0.6}, faultAction{At: t + time.Duration(10+rng.Intn(30))*time.Second, Kind: "streamcut", P: 0})
+				break
+			}
 			d := []time.Duration{300 * time.Millisecond, time.Second, 3 * time.Second}[rng.Intn(3)]
 			sc.Actions = append(sc.Actions, faultAction{At: t, Kind: "delay", Dur: d}, faultAction{At: t + 15*time.Second, Kind: "delay", Dur: 0})
 		case 4, 5:
@@ -300,6 +304,13 @@ func runC05(run *Run, seed int64, sc faultScn, rng *rand.Rand, stopWhen ...func(
 			}
 		}
 		o.Witness = map[string]any{"views_at_stop": viewsAtStop, "states_at_stop": statesAtStop, "dumps_at_end": dumps, "logs": ch.C.LogTails(8), "log_around_stop": around}
+	}
+	// at rest no node may hold a push/pull slot (each leaked one brings the node closer to refusing every exchange)
+	Settle(live[0].Node.Conf.TCPTimeout + time.Second)
+	for _, cn := range ch.LiveNodes() {
+		if n := cn.Node.ML().VerifPushPullInFlight(); n != 0 {
+			fail("pushpull-slots-leaked", "%s holds %d of its push/pull slots at rest, long after the faults (incl. cut streams) have ceased", cn.Name, n)
+		}
 	}
 	o.Settled = time.Since(stop)
 	run.Max("settle_over_bound", float64(o.Settled)/float64(settle))
@@ -601,7 +612,7 @@ func TestC05(t *testing.T) {
 	run.Count("judged", int64(judged))
 	run.Count("skipped_not_connected", int64(skipped))
 	if !run.Replaying() {
-		for _, k := range []string{"loss", "partition", "crash", "restart", "replace", "leave", "update", "delay", "dup", "latedup"} {
+		for _, k := range []string{"loss", "partition", "crash", "restart", "replace", "leave", "update", "delay", "dup", "latedup", "streamcut"} {
 			run.Require("kind|" + k + "|judged")
 		}
 	}
